@@ -263,9 +263,13 @@ class QuantityPoint {
     Diff x_;
 };
 
+// Out-of-class definition, so that `unit` can be ODR-used in C++14 (e.g., bound to a reference).
+template <typename UnitT, typename RepT>
+constexpr UnitT QuantityPoint<UnitT, RepT>::unit;
+
 template <typename Unit>
 struct QuantityPointMaker {
-    static constexpr auto unit = Unit{};
+    static constexpr Unit unit{};
 
     template <typename T>
     constexpr auto operator()(T value) const {
@@ -295,6 +299,10 @@ struct QuantityPointMaker {
         return QuantityPointMaker<decltype(unit / m)>{};
     }
 };
+
+// Out-of-class definition, so that `unit` can be ODR-used in C++14 (e.g., bound to a reference).
+template <typename Unit>
+constexpr Unit QuantityPointMaker<Unit>::unit;
 
 template <typename U>
 struct AssociatedUnitForPoints<QuantityPointMaker<U>> : stdx::type_identity<U> {};
